@@ -220,6 +220,7 @@ func newMWDeploy(c mwDeployConf, idpMD *saml.EntityDescriptor, gateAttr, gateVal
 	mux := http.NewServeMux()
 	mux.Handle("/saml/", m)
 	mux.Handle("/gated/", m.RequireAccount(samlsp.RequireAttribute(gateAttr, gateValue)(record(&d.gated))))
+	mux.Handle("/gatedempty/", m.RequireAccount(samlsp.RequireAttribute("dept", "")(record(&d.gated))))
 	mux.Handle("/", m.RequireAccount(record(&d.hits)))
 	d.handler = mux
 	d.mux = mux
@@ -424,6 +425,12 @@ func mwUsers() []mwUser {
 		{NameID: "judy", Index: "si-judy", Attrs: []AttrSpec{{Name: "role", Friendly: "role", Values: []string{"*"}}}},
 		{NameID: "karl", Index: "si-karl", Attrs: []AttrSpec{{Name: "role", Friendly: "role", Values: []string{"user", "adm?n", "[a-z]dmin"}}}},
 		{NameID: "lena", Index: "si-lena", Attrs: []AttrSpec{{Name: "role", Friendly: "role", Values: []string{"a*", ".*", "^admin$|", "\\admin", "%", "admin*"}}}},
+		// an attribute that carries the empty string as one of its values
+		{NameID: "mona", Index: "si-mona", Attrs: []AttrSpec{{Name: "dept", Values: []string{""}}, {Name: "role", Friendly: "role", Values: []string{"user"}}}},
+		{NameID: "nils", Index: "si-nils", Attrs: []AttrSpec{{Name: "dept", Values: []string{"sales", ""}}}},
+		// two attributes sharing a Name, one with a friendly name and one without (they differ in NameFormat): two attributes
+		{NameID: "olga", Index: "si-olga", Attrs: []AttrSpec{{Name: "level", Friendly: "clearance", Values: []string{"zQbasicQz"}}, {Name: "role", Friendly: "role", Values: []string{"user"}},
+			{Name: "level", Values: []string{"zQtopQz"}, Stmt: 1}}},
 		{NameID: "\u00a0bob@example.com", Index: "si-bob-nbsp", Attrs: []AttrSpec{{Name: "role", Friendly: "role", Values: []string{"admin\t"}}}},
 	}
 }
